@@ -113,3 +113,10 @@ def run(ctx, rep):
                    f'value is neither conventional nor interval-defined: {show(val, maxd=4)[:120]}', world=w.describe())
     rep.floor('policy-None worlds', nn, 16)
     rep.extra['worlds'] = nn
+    # shared mechanism: no wrap-induced jump of the interpolated right ascension / declination (R1.2)
+    from . import shared, modular, conv as _CV
+    shared.include(ctx, rep, lambda c_, r_: modular.check(c_, r_, _CV.get(c_)), {'R1.2'}, why='360->0 seam hygiene of the interpolation')
+    # shared mechanism: the clock-time conversion wraps into [0, 24) after the offset and cannot fail (R11.4, R11.7)
+    from . import shared, c11 as _c11
+    shared.include(ctx, rep, _c11.run, {'R11.4', 'R11.7'}, why='every reported hour becomes a valid clock time')
+
